@@ -100,7 +100,7 @@ theorem dryT_parse (d : Handle) (dir name content : Bytes) {w : World} {fid : Na
 theorem dryT_parsable (env : PEnv) (orc : EvalOracles) (expr : Expr) (dir name content : Bytes)
     (hv : (verdict env orc expr dir name content).isErr = false) :
     ∃ p n mf, pathjoin PATH_MAX dir name = some p ∧ strlcpyFits NAME_MAX1 name = some n ∧ flagsParse n = some mf := by
-  unfold verdict at hv
+  unfold verdict fileMs at hv
   cases h1 : pathjoin PATH_MAX dir name with
   | none => simp [h1, Verdict.isErr] at hv
   | some p =>
@@ -115,7 +115,8 @@ theorem dryT_parsable (env : PEnv) (orc : EvalOracles) (expr : Expr) (dir name c
 
 /-- Dry run, no fault: a registered, bound, readable message whose verdict is not an error verdict leaves
 the error flag as it was. -/
-theorem dryT_processMessage (env : PEnv) (orc : EvalOracles) (expr : Expr) (hdry : env.dryrun = true) (md : Maildir) (n : Bytes)
+theorem dryT_processMessage (env : PEnv) (orc : EvalOracles) (expr : Expr) (hfree : asksFree expr = true) (hdry : env.dryrun = true)
+    (md : Maildir) (n : Bytes)
     (st : MainSt) {w : World} {d : Handle} {c : Bytes} {fid : Nat} {f : File}
     (hd : md.dirH = some d) (hp : w.dirPath d = some md.path) (hfc : st.files.get md.path n = some c)
     (hl : w.lookup md.path n = some fid) (hf : w.file fid = some f)
@@ -129,7 +130,7 @@ theorem dryT_processMessage (env : PEnv) (orc : EvalOracles) (expr : Expr) (hdry
   | none => cases hsome
   | some ms =>
     have hmv := msVerdict_of_parsed env orc expr md.path n c ms hpa
-    simp only [afterParse, hmv]
+    rw [afterParse_asksFree env orc expr hfree, hmv]
     have hfree : ∀ (ms' : MsgSt) (r : MainSt × Maildir), r.1.error = st.error →
         wpS ((freeP ms').bind fun _ => Prog.ret r) (fun _ r _ => r.1.error = st.error) b1 w1 := by
       intro ms' r hr
@@ -153,6 +154,8 @@ structure dryT_Hyp (C : exit0_Ctx) : Prop where
   dry : C.env.dryrun = true
   dirs : ∀ D ∈ C.dirs.map (·.1), (C.w0.dir D).isSome = true
   verd : ∀ D e n c, (D, e) ∈ C.dirs → C.files0.get D n = some c → (verdict C.env C.orc e D n c).isErr = false
+  /-- the rules ask the operating system nothing (`verdict` is the verdict of the pure evaluator) -/
+  free : ∀ D e, (D, e) ∈ C.dirs → asksFree e = true
 
 theorem dryT_step_dirs (w : World) (c : Call) (r : Res) (hd : World.Call.dirOp c = false) {ds : List (Bytes × List (Bytes × Nat))}
     (h : w.dirs = ds) : (stepWorld w c r).dirs = ds := by
@@ -288,10 +291,10 @@ theorem dryT_walk (C : exit0_Ctx) (hG : exit0_Good C) (hH : dryT_Hyp C) (e : Exp
         have hget : st.files.get md.path n = some c :=
           (hinv1.track md.path e n c hmemD hc hdotF).1 (.inr ⟨_, _, _, rfl, rfl, List.mem_cons_self .., hdotF⟩)
         obtain ⟨fid, hl, hlt, hf⟩ := hinv1.reg md.path n c hget
-        have hA := exit0_wpS_unique (exit0_step_quiet C.env C.orc e md n st false hd (hmd1.1 d hd) hget hl (.inl hH.dry))
+        have hA := exit0_wpS_unique (exit0_step_quiet C.env C.orc e md n st false hd (hmd1.1 d hd) hget hl (hH.free _ _ hmemD) (.inl hH.dry))
           hinv1.uniq
-        have hB := wpS_of_wp false (exit0_quiet_processMessage C.env C.orc e md n st hd (hmd1.1 d hd) hget hl (.inl hH.dry))
-        have hE := dryT_processMessage C.env C.orc e hH.dry md n st hd (hmd1.1 d hd) hget hl hf (hH.verd md.path e n c hmemD hc)
+        have hB := wpS_of_wp false (exit0_quiet_processMessage C.env C.orc e md n st hd (hmd1.1 d hd) hget hl (hH.free _ _ hmemD) (.inl hH.dry))
+        have hE := dryT_processMessage C.env C.orc e (hH.free _ _ hmemD) hH.dry md n st hd (hmd1.1 d hd) hget hl hf (hH.verd md.path e n c hmemD hc)
         refine dryT_wpS_bind (wpS_and hA (wpS_and hB hE)) ?_
         rintro ⟨st', md'⟩ w2 ⟨⟨⟨hmd', k, hregp, hdet⟩, hu2⟩, ⟨hpf, _⟩, herr2⟩
         simp only at hmd' herr2
@@ -399,11 +402,11 @@ theorem dryT_paths (C : exit0_Ctx) (hG : exit0_Good C) (hH : dryT_Hyp C) (hm : C
       have hfu : (sortedNames es).length + 1 +
           (if (Subdir.new = Subdir.new) then
             (st.files.filter (fun x => x.1 == root ++ [47] ++ subdirName .cur)).length + 3 else 0) ≤
-          walkFuel st root np := by
+          walkFuel C.env st root np := by
         rw [World.length_sortedNames]
         simp only [if_true, walkFuel]
         omega
-      refine dryT_wpS_bind (dryT_walk C hG hH b.expr (walkFuel st root np) _ st w3 pre _ (sortedNames es) h3 rfl rfl
+      refine dryT_wpS_bind (dryT_walk C hG hH b.expr (walkFuel C.env st root np) _ st w3 pre _ (sortedNames es) h3 rfl rfl
         ⟨?_, hnp⟩ ⟨none, 0, hobj3⟩ hrem3 hs (fun _ => ⟨_, rfl⟩) (fun _ => hf3) hrokO hinvO hdirs3 herr hfu) ?_
       · intro d' hd'
         cases hd'
@@ -596,7 +599,7 @@ theorem dryT_real_mainP (env : PEnv) (orc : EvalOracles) (confOk : Bool) (conf :
 
 theorem dryT_verdict_isErr (env : PEnv) (orc : EvalOracles) (expr : Expr) (D n c : Bytes) (b1 b2 : Bool) :
     (verdict { env with dryrun := b1 } orc expr D n c).isErr = (verdict { env with dryrun := b2 } orc expr D n c).isErr := by
-  unfold verdict
+  unfold verdict fileMs
   cases pathjoin PATH_MAX D n with
   | none => rfl
   | some p =>
@@ -608,7 +611,7 @@ theorem dryT_verdict_isErr (env : PEnv) (orc : EvalOracles) (expr : Expr) (D n c
       | none => rfl
       | some mf =>
         dsimp only
-        unfold msVerdict
+        unfold msVerdict evVerdict
         dsimp only
         have hs := Insp.eval_sim (dry_envAgree env orc b1 b2 p) (parseMessage c) expr 0 (parseMessage c)
           { ml := [], flags := mf } { ml := [], flags := mf } ⟨rfl, rfl⟩
@@ -651,28 +654,30 @@ configuration; no call of a maildir-mode run creates or removes a directory (`di
 existed in the initial world. -/
 theorem dryT_real_dirs (env : PEnv) (orc : EvalOracles) (confOk : Bool) (conf : List ConfBlock) (files : Files) (input : Bytes)
     (w : World) (plan : Plan) (hm : env.stdinMode = false) (hsyn : env.syntaxOnly = false) (hdry : env.dryrun = false)
+    (hfree : ∀ b ∈ conf, asksFree b.expr = true)
     (hnd : ∀ b ∈ conf, WholeNoDiscard env orc b.expr) (hreg : WholeReg w files)
     (hG : exit0_Good ⟨env, orc, exit0_dirsOf conf, files, w⟩) (hp : World.SingleFault plan)
     (he : (runPlan plan (mainP env orc confOk conf files input) w 0 []).1.2.error = false) : dryT_dirsExist conf w := by
   have h1 := exit0_mainP' ⟨env, orc, exit0_dirsOf conf, files, w⟩ hG hm hsyn confOk conf input rfl
-    (fun b hb => exit0_step_real env orc b.expr hdry (hnd b hb)) hreg true
+    (fun b hb => exit0_step_real env orc b.expr (hfree b hb) hdry (hnd b hb)) hreg true
   have h2 := dirsSame_mainP env orc confOk conf files input hm true w
   rw [World.runPlan_eq] at he
   obtain ⟨_, hq, hsame⟩ := World.wpS_sound plan (wpS_and h1 h2) hp.budget
   intro D hD
   rw [← hsame D]
-  exact (hq he).2 D hD
+  exact (hq he).2.1 D hD
 
 /-- **If the real run ends with exit status 0, so does the dry run** (fault-free plan, maildir mode, rules
-without discard, no message visited twice). -/
+without discard that ask the operating system nothing, no message visited twice). -/
 theorem dry_exit_le_real (env : PEnv) (orc : EvalOracles) (confOk : Bool) (conf : List ConfBlock) (files : Files) (input : Bytes)
     (w : World) (hm : env.stdinMode = false) (hsyn : env.syntaxOnly = false) (hdry : env.dryrun = false)
+    (hfree : ∀ b ∈ conf, asksFree b.expr = true)
     (hnd : ∀ b ∈ conf, WholeNoDiscard env orc b.expr) (hreg : WholeReg w files)
     (hG : exit0_Good ⟨env, orc, exit0_dirsOf conf, files, w⟩)
     (hreal : (runPlan Plan.none (mainP env orc confOk conf files input) w 0 []).1.1 = 0) :
     (runPlan Plan.none (mainP { env with dryrun := true } orc confOk conf files input) w 0 []).1.1 = 0 := by
   have he := exit0_status_zero env orc confOk conf files input w Plan.none hm hreal
-  have hex := dryT_real_dirs env orc confOk conf files input w Plan.none hm hsyn hdry hnd hreg hG World.singleFault_none he
+  have hex := dryT_real_dirs env orc confOk conf files input w Plan.none hm hsyn hdry hfree hnd hreg hG World.singleFault_none he
   -- the configuration
   obtain ⟨hok, hfit⟩ : confOk = true ∧ ∀ b ∈ conf, ∀ p ∈ b.paths, isStdinPath p = false → dryT_Fits p := by
     have h := dryT_real_mainP env orc confOk conf files input hm hsyn true w
@@ -681,7 +686,7 @@ theorem dry_exit_le_real (env : PEnv) (orc : EvalOracles) (confOk : Bool) (conf 
     exact hq he
   subst hok
   -- the verdicts
-  have hpl := (exit0_main_exit0 env orc true conf files input w Plan.none hm hsyn hdry hnd hreg hG World.singleFault_none hreal).1
+  have hpl := (exit0_main_exit0 env orc true conf files input w Plan.none hm hsyn hdry hfree hnd hreg hG World.singleFault_none hreal).1
   have hverd : ∀ D e n c, (D, e) ∈ exit0_dirsOf conf → files.get D n = some c →
       (verdict { env with dryrun := true } orc e D n c).isErr = false := by
     intro D e n c hmem hc
@@ -697,9 +702,16 @@ theorem dry_exit_le_real (env : PEnv) (orc : EvalOracles) (confOk : Bool) (conf 
     have := dryT_verdict_isErr env orc e D n c true false
     rw [dry_env_false env hdry] at this
     rw [this]; exact hr
+  have hfreeD : ∀ D e, (D, e) ∈ exit0_dirsOf conf → asksFree e = true := by
+    intro D e hmem
+    simp only [exit0_dirsOf, exit0_pathDirs, List.mem_flatMap, List.mem_filter, List.mem_cons, Prod.mk.injEq, List.mem_nil_iff,
+      or_false] at hmem
+    obtain ⟨b, hb, p, _, h | h⟩ := hmem
+    · rw [h.2]; exact hfree b hb
+    · rw [h.2]; exact hfree b hb
   -- the dry run
   have hD := dryT_mainP ⟨{ env with dryrun := true }, orc, exit0_dirsOf conf, files, w⟩ (dry_good env orc _ files w hG)
-    ⟨rfl, hex, hverd⟩ hm hsyn conf input rfl hfit hreg
+    ⟨rfl, hex, hverd, hfreeD⟩ hm hsyn conf input rfl hfit hreg
   obtain ⟨_, herrD⟩ := World.wpS_sound Plan.none hD dryT_budget_none
   have herr' : (World.run Plan.none (mainP { env with dryrun := true } orc true conf files input) w 0).1.2.error = false :=
     herrD
@@ -717,6 +729,7 @@ theorem dry_exit_le_real (env : PEnv) (orc : EvalOracles) (confOk : Bool) (conf 
 /-- `dry_predicts_real` without the hypothesis that the dry run ends with exit status 0. -/
 theorem dry_predicts_real2 (env : PEnv) (orc : EvalOracles) (confOk : Bool) (conf : List ConfBlock) (files : Files) (input : Bytes)
     (w : World) (hm : env.stdinMode = false) (hsyn : env.syntaxOnly = false) (hdry : env.dryrun = false)
+    (hfree : ∀ b ∈ conf, asksFree b.expr = true)
     (hnd : ∀ b ∈ conf, WholeNoDiscard env orc b.expr) (hreg : WholeReg w files)
     (hG : exit0_Good ⟨env, orc, exit0_dirsOf conf, files, w⟩)
     (hreal : (runPlan Plan.none (mainP env orc confOk conf files input) w 0 []).1.1 = 0) :
@@ -725,7 +738,7 @@ theorem dry_predicts_real2 (env : PEnv) (orc : EvalOracles) (confOk : Bool) (con
       (runPlan Plan.none (mainP env orc confOk conf files input) w 0 []).1.2.log ∧
     (runPlan Plan.none (mainP env orc confOk conf files input) w 0 []).1.2.log =
       exit0_refDirs ⟨env, orc, exit0_dirsOf conf, files, w⟩ (exit0_dirsOf conf) := by
-  have hd := dry_exit_le_real env orc confOk conf files input w hm hsyn hdry hnd hreg hG hreal
-  exact ⟨hd, dry_predicts_real env orc confOk conf files input w hm hsyn hdry hnd hreg hG hreal hd⟩
+  have hd := dry_exit_le_real env orc confOk conf files input w hm hsyn hdry hfree hnd hreg hG hreal
+  exact ⟨hd, dry_predicts_real env orc confOk conf files input w hm hsyn hdry hfree hnd hreg hG hreal hd⟩
 
 end Mdsort.Proofs
